@@ -445,6 +445,19 @@ func c13Subsets(n, maxSize int) [][]int {
 	return res
 }
 
+// shapes with a dependency shared by several dependents (edge [a,b]: a depends on b)
+var c13SharedShapes = []struct {
+	name  string
+	n     int
+	edges [][2]int
+}{
+	{"diamond", 4, [][2]int{{1, 0}, {2, 0}, {3, 1}, {3, 2}}},
+	{"root-with-dependency-and-3-dependents", 5, [][2]int{{1, 0}, {2, 1}, {3, 1}, {4, 1}}},
+	{"shared-before-root-branch", 4, [][2]int{{3, 0}, {3, 2}, {2, 0}, {2, 1}}},
+	{"diamond-over-chain", 5, [][2]int{{1, 0}, {2, 1}, {3, 1}, {4, 2}, {4, 3}}},
+	{"two-roots-fan", 5, [][2]int{{2, 0}, {2, 1}, {3, 0}, {3, 1}, {4, 2}, {4, 3}}},
+}
+
 var c13Ctx *core.Ctx
 
 func runC13(ctx *core.Ctx) {
@@ -515,6 +528,22 @@ func runC13(ctx *core.Ctx) {
 					both(c13Args{c13Graph: g, Mode: "completion", Policy: "random", Seed: ctx.Rng.Int63n(1 << 30), Budget: 8})
 					both(c13Args{c13Graph: g, Mode: "pct", Seed: ctx.Rng.Int63n(1 << 30), Budget: 4})
 					ctx.Count("roots")
+				}
+			}
+		}
+	}
+	// 1d. root selections on shared-dependency shapes (4–5 services; skip() runs vertex.descendents in the worker
+	//     goroutines): diamonds, a root that has a dependency of its own and several dependents that become ready
+	//     together, a shared dependency that sorts before the branch leading to the root — every single root, both
+	//     directions, unbounded and limit 2, completion orders + PCT + random schedules
+	for _, sh := range c13SharedShapes {
+		for _, rev := range dirs {
+			for r := 0; r < sh.n; r++ {
+				for _, lim := range []int{0, 2} {
+					g := c13Graph{N: sh.n, Edges: sh.edges, Reverse: rev, Limit: lim, Roots: []int{r}}
+					both(c13Args{c13Graph: g, Mode: "completion", Policy: "random", Seed: ctx.Rng.Int63n(1 << 30), Budget: ctx.Pick(3, 24)})
+					both(c13Args{c13Graph: g, Mode: "pct", Seed: ctx.Rng.Int63n(1 << 30), Budget: ctx.Pick(2, 8)})
+					ctx.Count("roots-shared-" + sh.name)
 				}
 			}
 		}
